@@ -101,7 +101,7 @@ def analyse(prop, spec, ops, model, impl, crashes):
         if "badloads" in spec["impl"] and a.get("badloads", "0") != "0":
             real.append(dict(meta=meta, kind="out-of-bounds-or-misaligned-load", op=line, impl=impl[i], model=model[i]))
             ok_here = False
-        if "allocs" in spec["impl"] and line.startswith("finderops") and "allocs" in a and "allocs" in m \
+        if "allocs" in spec["impl"] and line.startswith(("finderops", "finderrevops")) and "allocs" in a and "allocs" in m \
                 and a["head"] == "ok" and m["head"] == "ok":
             # the model's allocation count is the specification (C17 theorems): only the owning
             # conversions allocate
@@ -179,11 +179,17 @@ def run(prop, spec, tier, seed, t0):
     # a changed source pin (normalised text of a modelled file differs from the committed pin)
     # is not a failure, but the correspondence then uses the deep generators for this run
     gen_tier = tier
+    ops = list(gens.generate(prop, tier, seed))
     if tier == "quick" and ex.get("pins_changed"):
-        gen_tier = "thorough"
-    ops = list(gens.generate(prop, gen_tier, seed, budget=400000 if gen_tier != tier else None))
-    if gen_tier != tier and len(ops) > 1200000:
-        ops = ops[:1200000]
+        # keep the complete quick stream (it contains every targeted family) and add a random
+        # sample of the deep stream
+        import itertools, random as _random
+        gen_tier = "quick+deep-sample"
+        deep = list(itertools.islice(gens.generate(prop, "thorough", seed + 7, budget=400000), 2500000))
+        r = _random.Random(seed)
+        if len(deep) > 500000:
+            deep = r.sample(deep, 500000)
+        ops = ops + deep
     model = impl = None
     crashes = []
     real, corr, stats = [], [], dict(families={}, distinct_nontrivial=0, agreed=0)
@@ -209,7 +215,7 @@ def run(prop, spec, tier, seed, t0):
 
     # search for a failing input when something broke but nothing real was found yet
     searched = 0
-    if broken and not real and build_error is None and gen_tier == "quick" and os.path.exists(vlib.DRIVER):
+    if broken and not real and build_error is None and tier == "quick" and gen_tier == "quick" and os.path.exists(vlib.DRIVER):
         ops2 = list(gens.generate(prop, "thorough", seed + 1, budget=200000))
         m2, i2, c2, _ = vlib.run_grouped(ops2)
         r2, _, _ = analyse(prop, spec, ops2, m2, i2, c2)
